@@ -191,11 +191,12 @@ Definition print_obj (sw : switches) (m : mesh) : option (list line) :=
   | Some el => Some (map obj_vertex_line (mV m) ++ map obj_edge_line el ++ map obj_face_line (mF m))
   end.
 
-(* parse_vertex: "12" -> 11, "12/3/7" -> 11 (the texture / normal indices must be integers when present; the
-   uv_coords / normals attributes they fill are not modelled, nor the IndexError of a dangling reference) *)
-Definition obj_parse_vertex (t : tok) : option Z :=
+(* parse_vertex: "12" -> 11, "12/3/7" -> 11, "-1" -> the last of the nv vertices read so far (resolve_index; the texture /
+   normal indices must be integers when present; the uv_coords / normals attributes they fill are not modelled, nor the
+   IndexError of a dangling reference) *)
+Definition obj_parse_vertex (nv : Z) (t : tok) : option Z :=
   match t with
-  | TInt z => Some (obj_imp_vid z)
+  | TInt z => Some (obj_imp_resolve z nv)
   | TWord s =>
       let vals := split_on "/"%char s in
       match vals with
@@ -206,14 +207,15 @@ Definition obj_parse_vertex (t : tok) : option Z :=
               let ok1 := match rest with t1 :: _ => if String.eqb t1 "" then true else match z_of_string t1 with Some _ => true | None => false end
                                     | [] => true end in
               let ok2 := match rest with _ :: t2 :: _ => match z_of_string t2 with Some _ => true | None => false end | _ => true end in
-              if ok1 && ok2 then Some (obj_imp_vid z) else None
+              if ok1 && ok2 then Some (obj_imp_resolve z nv) else None
           end
       | [] => None
       end
   | _ => None
   end.
 
-Definition obj_step (l : line) (acc : list (list F) * list (list Z) * list (list Z))
+(* nv: the number of v statements before this line (len(obj.vertices) when the line is read) *)
+Definition obj_step (nv : Z) (l : line) (acc : list (list F) * list (list Z) * list (list Z))
   : option (list (list F) * list (list Z) * list (list Z)) :=
   let '(V, E, Fs) := acc in
   match l with
@@ -229,21 +231,25 @@ Definition obj_step (l : line) (acc : list (list F) * list (list Z) * list (list
         | _, _ => None
         end
       else if is_word t0 obj_imp_kw_f then
-        option_map (fun f => (V, E, f :: Fs)) (omap obj_parse_vertex (skipn 1 l))
+        option_map (fun f => (V, E, f :: Fs)) (omap (obj_parse_vertex nv) (skipn 1 l))
       else if is_word t0 obj_imp_kw_l then
         (* a polyline: for i in range(1, len(toks)-1): the edge (toks[i], toks[i+1]) *)
         let args := skipn 1 l in
         if (length args <? 2)%nat then Some acc
         else option_map (fun idx => (V, map (fun p => keyify2 (fst p) (snd p)) (consecutive idx) ++ E, Fs))
-                        (omap (fun t => option_map obj_imp_edge (py_int t)) args)
+                        (omap (fun t => option_map (fun x => obj_imp_resolve x nv) (py_int t)) args)
       else Some acc
   end.
 
-Fixpoint parse_obj_lines (ls : list line) : option (list (list F) * list (list Z) * list (list Z)) :=
+Definition obj_line_nv (l : line) : Z :=
+  match l with t0 :: _ => if is_word t0 obj_imp_kw_v then 1 else 0 | [] => 0 end.
+(* the lines are read in order; the result is assembled from the end, the count of vertices read so far goes forward *)
+Fixpoint parse_obj_from (nv : Z) (ls : list line) : option (list (list F) * list (list Z) * list (list Z)) :=
   match ls with
   | [] => Some ([], [], [])
-  | l :: r => match parse_obj_lines r with Some acc => obj_step l acc | None => None end
+  | l :: r => match parse_obj_from (nv + obj_line_nv l) r with Some acc => obj_step nv l acc | None => None end
   end.
+Definition parse_obj_lines (ls : list line) := parse_obj_from 0 ls.
 Definition parse_obj (ls : list line) : option raw :=
   option_map (fun a => let '(V, E, Fs) := a in raw_of V E Fs []) (parse_obj_lines ls).
 
